@@ -82,6 +82,12 @@ func evalHeapRun(o *heapOutcome, k int, st func(uint64) string) []heapViol {
 		vs = append(vs, heapViol{Inv: "C05." + v.Inv, Sig: fmt.Sprintf("%s|%s|%s", v.Inv, violClass(v.Inv, v.Text), sym),
 			Detail: fmt.Sprintf("%s [%s] %s (pc in %s) — program %s, %s, policy %s seed %d", v.Inv, res.Report.Term, v.Text, sym, o.Job.Prog.Name, o.Job.Cfg, r.Policy, r.Policy.Seed)})
 	}
+	if res.Report.Refused > 0 && res.Report.MaxLive < 1<<24 {
+		// L6: a request for more than 2 GiB while the program holds a few KiB: the size was read from memory the
+		// program never initialised or that was corrupted (no workload program needs such a block)
+		vs = append(vs, heapViol{Inv: "C05.L6", Sig: "L6|absurd-request", Detail: fmt.Sprintf("L6 [%s] ddp_reallocate was asked for %d bytes while at most %d bytes were ever live — a size taken from uninitialised or foreign memory; program %s, %s, policy %s seed %d",
+			res.Report.Term, res.Report.RefSize, res.Report.MaxLive, o.Job.Prog.Name, o.Job.Cfg, r.Policy, r.Policy.Seed)})
+	}
 	if res.Report.Term == "normal" && len(res.Report.Viol) == 0 && res.Report.SumNew != res.Report.SumOld {
 		vs = append(vs, heapViol{Inv: "C05.conservation", Sig: "conservation", Detail: fmt.Sprintf("sum of new sizes %d != sum of old sizes %d at normal exit", res.Report.SumNew, res.Report.SumOld)})
 	}
